@@ -229,21 +229,36 @@ class Glue:
             return None
         lia = self.lia
         e10 = sgn(exp, 64)
-        if abs(e10) > 5000:
-            return None      # saturated exponent: value is astronomically large/small either way
         if mant.__class__ is Term:
             m, _, _, mside = lia.conv(mant)
         else:
             m, mside = z3.IntVal(mant), ()
-        A, B = 10 ** max(e10, 0), 10 ** max(-e10, 0)
+        if abs(e10) > 5000:
+            # a reported exponent this far out may be a capped one (the scanner stops accumulating exponent
+            # digits); the conversion tiers decline it (Eisel-Lemire's table ends at -348/+347, tier 3) and the
+            # fallback re-reads the literal. What must hold is that the literal's true value is out of the
+            # tiers' range on the same side: e > 347 => |v| >= m*10^348, e < -348 => |v| < (m+1)*10^-348.
+            # (Implied by the exact contract, so an exact scanner never fails it; an earlier version of this
+            # check skipped such exponents altogether, which hid fix f8cd401's defect from this tier.)
+            if e10 > 0:
+                bad = z3.And(m != 0, vnum < m * (10 ** 348) * vden)
+            else:
+                bad = vnum * (10 ** 348) >= (m + 1) * vden
+            A = B = None
+        else:
+            A, B = 10 ** max(e10, 0), 10 ** max(-e10, 0)
         # compare m*A/B with vnum/vden
-        lhs = m * A * vden
-        rhs = vnum * B
-        if trunc:
+        if A is None:
+            pass
+        elif trunc:
             # a truncated scan with mantissa 0 carries no exponent (the code leaves exp = 0); the
             # tiers never use it: rnd(0) differs from rnd(1*10^exp), so the re-check sends it to the fallback
+            lhs = m * A * vden
+            rhs = vnum * B
             bad = z3.And(m != 0, z3.Or(lhs > rhs, (m + 1) * A * vden <= rhs))
         else:
+            lhs = m * A * vden
+            rhs = vnum * B
             bad = lhs != rhs
         bad = z3.Or(bad, z3.BoolVal(bool(neg) != vneg))
         r = lia.check(st.pc, st.extras, (), raw=list(st.raw) + list(vside) + list(mside) + [bad])
